@@ -124,6 +124,52 @@ func FuzzC33Raw(f *testing.F) {
 	})
 }
 
+// FuzzC33PostHandshake: after a real handshake the server sends HelloRequest(s) and then
+// the fuzz bytes as handshake-record payload under the connection's keys (workload E).
+func FuzzC33PostHandshake(f *testing.F) {
+	targets := fuzzTargets()
+	kinds := renegKinds()
+	f.Add(byte(0), byte(0), byte(0), []byte{2, 0, 0, 2, 3, 3})
+	f.Add(byte(3), byte(1), byte(5), []byte{0, 0, 0, 0, 0, 0, 0, 0})
+	f.Add(byte(40), byte(4), byte(2), []byte{24, 0, 0, 1, 1, 4, 0, 0, 0})
+	f.Add(byte(60), byte(2), byte(9), []byte{11, 0, 0, 3, 0, 0, 0, 14, 0, 0, 0})
+	f.Fuzz(func(t *testing.T, ti, ki, flags byte, payload []byte) {
+		if len(payload) > 70000 {
+			return
+		}
+		tg := targets[int(ti)%len(targets)]
+		kind := kinds[int(ki)%len(kinds)]
+		ch, err := tg.Probe("example.test")
+		if err != nil {
+			return
+		}
+		o := OfferOf(ch, targetMinVersion(tg))
+		if !kind.ok(o) {
+			return
+		}
+		cs := renegCase{tg: tg, kind: kind, can13: has13x(o), warm13: flags&1 != 0 && has13x(o), preRequest: flags&2 != 0, requests: 1 + int(flags>>2)&1,
+			reneg: []int{-1, int(tls.RenegotiateNever), int(tls.RenegotiateOnceAsClient), int(tls.RenegotiateFreelyAsClient)}[int(flags>>4)&3],
+			script: renegScript{"fuzz", func(rg *rand.Rand, ch2 *wire.ClientHello) []renegRec {
+				if len(payload) == 0 {
+					return nil
+				}
+				typ := byte(22)
+				if flags&8 != 0 {
+					typ = []byte{20, 21, 23}[int(payload[0])%3]
+				}
+				return []renegRec{{typ, payload}}
+			}}}
+		cs.id = "fuzz"
+		res := c33RunReneg(cs)
+		if res.panicked != "" {
+			t.Fatalf("client panicked: %s", res.panicked)
+		}
+		if res.hung != nil && parkedState(res.hung.State) {
+			t.Fatalf("client call parked (%s)", res.hung.State)
+		}
+	})
+}
+
 // FuzzC34Hello: arbitrary ClientHello message bytes (framed by the harness) + a second
 // phase, against each server configuration.
 func FuzzC34Hello(f *testing.F) {
